@@ -134,7 +134,7 @@ def settings_and_histories(ctx, plain):
             what = "did not return within its alarm (hang)" if "TIMEOUT" in out else "aborted (sanitizer report / crash)"
             k = err.find("ERROR:")
             ctx.violation("decoding under non-default settings / on a static context %s: %s :: %s" % (what, allops[bad][:100], (err[k:k + 900] if k >= 0 else err[-700:])),
-                          dict(kind="monitor", harness="zvh_c03", op=allops[bad][:400000], stderr=err[-3000:]))
+                          dict(kind="monitor", harness="zvh_c03", op=allops[bad][:40000000], stderr=err[-3000:]))
     ev = dict(trsweep_ops=len(tops), trsweep_evals=0, trsweep_accepted_prefixes=0, sdhist_ops=len(sops), sdhist_steps=0, sdhist_steps_compared=0, sdhist_mem_errors=0, sdhist_ok=0)
     # (1) monitors + tie of accepted prefixes
     mlines, mwhat = [], []
@@ -145,7 +145,7 @@ def settings_and_histories(ctx, plain):
         kv = dict(w.split("=", 1) for w in o.split()[1:])
         ev["trsweep_evals"] += int(kv["evals"])
         if kv["over"] != "0":
-            ctx.violation("a decoding entry point under non-default settings reported more bytes than the capacity it was given", dict(kind="monitor", harness="zvh_c03", op=tops[i][:400000], result=o))
+            ctx.violation("a decoding entry point under non-default settings reported more bytes than the capacity it was given", dict(kind="monitor", harness="zvh_c03", op=tops[i][:40000000], result=o))
         if kv["accepted"] != "-":
             for cut in sorted({int(a.split("/")[2]) for a in kv["accepted"].split(",")}):
                 cap = len(x) + 64
@@ -156,7 +156,7 @@ def settings_and_histories(ctx, plain):
             ev["trsweep_accepted_prefixes"] += 1
             if mm.startswith("err") and not mm.startswith("err lax"):
                 ctx.violation("the first %d bytes of a %d-byte valid input were taken for a complete input under some decoder setting (%s); the Lean decoder rejects them: %s" % (cut, len(cases[i][0]), o.split("accepted=")[1], mm),
-                              dict(kind="tie", correspondence="decoding entry points under decompression parameters vs Model/Frame.decompressAll", harness="zvh_c03", op=tops[i][:400000], cut=cut, impl=o, model=mm))
+                              dict(kind="tie", correspondence="decoding entry points under decompression parameters vs Model/Frame.decompressAll", harness="zvh_c03", op=tops[i][:40000000], cut=cut, impl=o, model=mm))
     # (2) monitors of the static-context histories
     # the room test of a static area as the model states it (Model/DBuf.lean: single pass / buffered with max(blockSizeMax,4) + ring, default window limit):
     # valid frames, default settings; asked per step because the single-pass decision depends on the step's chunk sizes
@@ -181,7 +181,7 @@ def settings_and_histories(ctx, plain):
             continue
         pairs = w[3:3 + len(steps)]
         tail = dict(t.split("=", 1) for t in w[3 + len(steps):])
-        op = sops[j][:400000]
+        op = sops[j][:40000000]
         if tail.get("canary") != "ok":
             ctx.violation("a static decoding context wrote outside the area it was given (%s = step:offset from the end of the area): %s" % (tail.get("canary"), o[:300]), dict(kind="monitor", harness="zvh_c03", op=op, result=o))
         if tail.get("overcap") != "0":
@@ -295,7 +295,7 @@ def correspondence(ctx):
                 bad = next((i for i in idx if cres[i] is None or (cres[i] and cres[i][-1] == "TIMEOUT")), idx[-1])
                 what = "did not return within its alarm (hang)" if any(o == "TIMEOUT" for o in out) else "aborted (sanitizer report / crash)"
                 ctx.violation("decoding entry point %s on untrusted input: %s %s" % (what, ops[bad][:80], err[-600:]),
-                              dict(kind="monitor", op=ops[bad][:400000], stderr=err[-3000:]))
+                              dict(kind="monitor", op=ops[bad][:40000000], stderr=err[-3000:]))
         ev_settings = settings_and_histories(ctx, plain) if first else None
         # the prefetching ("long") sequence decoder, normally reached only behind a cold dictionary or > 16 MiB of history: the sanitizer build with
         # that decoder forced decodes frames with > 64 KiB of literals and a few very long matches (split literal buffer, hand-over among the last
@@ -324,11 +324,11 @@ def correspondence(ctx):
             if rc != 0:
                 bad = idx[min(len(out), len(idx) - 1)]
                 ctx.violation("decoding entry point aborted (sanitizer report / crash) in the build with the prefetching sequence decoder forced: %s %s" % (lops[bad][:80], err[-600:]),
-                              dict(kind="monitor", op=lops[bad][:400000], variant="seqlongsan", stderr=err[-3000:]))
+                              dict(kind="monitor", op=lops[bad][:40000000], variant="seqlongsan", stderr=err[-3000:]))
             for i, o in zip(idx, out):
                 w = lops[i].split()
                 if o.startswith("ok") and w[0] in ("dec", "decs", "bufless") and int(o.split()[1]) > int(w[1]):
-                    ctx.violation("%s (prefetching decoder) returned %s bytes for capacity %s" % (w[0], o.split()[1], w[1]), dict(kind="monitor", op=lops[i][:400000], variant="seqlongsan", result=o))
+                    ctx.violation("%s (prefetching decoder) returned %s bytes for capacity %s" % (w[0], o.split()[1], w[1]), dict(kind="monitor", op=lops[i][:40000000], variant="seqlongsan", result=o))
         # model comparison for one-shot decode + frame size
         mi = [i for i in range(len(ops)) if info[i][0] in ("dec", "fsize")]
         mres = dict(zip(mi, frames.parallel(lambda ch: frames.model_lines(ch), frames.split_chunks([ops[i] for i in mi], 16))))
@@ -344,9 +344,9 @@ def correspondence(ctx):
             if kind in ("dec", "decs", "bufless") and c0.startswith("ok"):
                 n = int(c0.split()[1])
                 if n > cap:
-                    ctx.violation("%s returned %d bytes for capacity %d" % (kind, n, cap), dict(kind="monitor", op=ops[i][:400000], result=c0))
+                    ctx.violation("%s returned %d bytes for capacity %d" % (kind, n, cap), dict(kind="monitor", op=ops[i][:40000000], result=c0))
             if kind == "decs" and "calls=" in c0 and int(c0.split("calls=")[1].split()[0]) >= 1999999:
-                ctx.violation("streaming decoder looped without progress", dict(kind="monitor", op=ops[i][:400000], result=c0))
+                ctx.violation("streaming decoder looped without progress", dict(kind="monitor", op=ops[i][:40000000], result=c0))
             if i in mres:
                 mm = mres[i]
                 if mm.startswith("err lax") :
@@ -361,9 +361,9 @@ def correspondence(ctx):
                     verd["ok/ok" if c0.startswith("ok") else "err/err"] += 1
                 else:
                     ctx.violation("decoder verdict differs from the independent Lean decoder on a mutated frame: impl=%r model=%r" % (c0, mm),
-                                  dict(kind="tie", correspondence="ZSTD_decompress vs Model/Frame.decompressAll", op=ops[i][:400000], impl=c0, model=mm), no_input=True)
+                                  dict(kind="tie", correspondence="ZSTD_decompress vs Model/Frame.decompressAll", op=ops[i][:40000000], impl=c0, model=mm), no_input=True)
             if kind == "ddict" and "ROUNDTRIP-FAIL" in " ".join(c):
-                ctx.violation("a dictionary accepted by both loaders does not round-trip", dict(kind="monitor", op=ops[i][:400000], result=c))
+                ctx.violation("a dictionary accepted by both loaders does not round-trip", dict(kind="monitor", op=ops[i][:40000000], result=c))
             if len(ctx.violations) >= 6:
                 break
         kinds = {}
